@@ -16,7 +16,15 @@
 //!            are not connected (reported like refused ones) and the signal is sent at once.
 //!   kinds    one letter per client: `J` just accepted (connected, nothing sent), `K` idle keep-alive (one
 //!            request answered, connection open), `H` half-sent request, `S`/`L` handler running short/long,
-//!            `W` response being written (2 MiB body, client not reading), `O` WebSocket open
+//!            `W` response being written (2 MiB body, client not reading), `O` WebSocket open;
+//!            `a`..`o` PIPELINED keep-alive connections: 2, 3, 4, 5 or 64 complete requests written in one go
+//!            before anything is read (letter = `a` + 5*first + index into `PIPE_COUNTS`; first request
+//!            `/short` (first = 0), `/long` (1) or `/gate` (2: the handler waits until the harness opens the
+//!            gate, which it does after `run` has returned); the others `/n/<i>` (answered at once with the URI
+//!            as body) or `/ns/<i>` (the same after `SHORT_MS`), seed-chosen; all but the last carry
+//!            `Connection: Keep-Alive`, the last one by the seed; one seed-chosen follower may carry a padding
+//!            header of 100 / 1 000 / 4 096 / 8 192 / 9 000 bytes, so that the pipeline does or does not fit
+//!            the server's 8 KiB read buffer). All n responses must arrive complete and in order (`C`).
 use std::io::{Read, Write};
 use std::net::{SocketAddr, TcpListener, TcpStream};
 use std::sync::atomic::{AtomicBool, AtomicUsize, Ordering};
@@ -39,6 +47,34 @@ pub static HANDLED: AtomicUsize = AtomicUsize::new(0);
 pub static WORKER_EXITS: AtomicUsize = AtomicUsize::new(0);
 pub static ACCEPT_ORD: AtomicUsize = AtomicUsize::new(0);
 pub static DENY: AtomicBool = AtomicBool::new(false);
+/// the `/gate` handlers return once this is set (the harness sets it after `run` has returned)
+pub static GATE_OPEN: AtomicBool = AtomicBool::new(false);
+/// a `/gate` handler gives up waiting after this long (nothing in a scenario lasts that long)
+pub const GATE_MAX: Duration = Duration::from_millis(6000);
+/// a pipelined connection counts as "received before the signal" only if its last byte was written at least
+/// this long before the signal was sent (loop-back delivery is immediate; this is slack on top of it)
+pub const GRACE: Duration = Duration::from_millis(10);
+/// requests on a pipelined connection, by index (see the `kinds` letters `a`..`o`)
+pub const PIPE_COUNTS: [usize; 5] = [2, 3, 4, 5, 64];
+pub const PIPE_FIRST: [&str; 3] = ["short", "long", "gate"];
+
+/// `Some((first, n))` for the pipelined kinds: first handler 0 short / 1 long / 2 gated, `n` requests.
+pub fn pipe_of(kind: char) -> Option<(usize, usize)> {
+    if ('a'..='o').contains(&kind) {
+        let x = kind as usize - 'a' as usize;
+        Some((x / 5, PIPE_COUNTS[x % 5]))
+    } else {
+        None
+    }
+}
+
+pub fn pipe_kind(first: usize, idx: usize) -> char {
+    (b'a' + (5 * (first % 3) + idx % 5) as u8) as char
+}
+
+pub fn gate_open() -> bool {
+    GATE_OPEN.load(Ordering::SeqCst)
+}
 pub static PROBE_PORT: Mutex<Option<SocketAddr>> = Mutex::new(None);
 
 /// when `run` came back (set by the thread that called it, before it reports on the channel)
@@ -159,6 +195,159 @@ struct Client {
     denied_by_plan: bool,
     /// position among the successful connects (= position in the accept loop's order when nothing connects concurrently)
     ord: Option<usize>,
+    /// bodies of the responses this client is owed, in order (one for `S`/`L`/`W`/`K`, n for a pipelined one)
+    expect: Vec<Vec<u8>>,
+    /// when the last byte of what the client sends had been written (and the write had returned)
+    written_at: Option<Instant>,
+    /// when the kernel was seen to hold no unsent or unacknowledged byte of it any more (`settle`)
+    acked_at: Option<Instant>,
+    /// what the handlers of its requests take when nothing else is in their way
+    nominal_ms: u64,
+}
+
+/// Bytes the kernel still holds for the peer: not yet sent, or sent and not yet acknowledged (`SIOCOUTQ`).
+/// `None`: the question cannot be asked here.
+#[cfg(target_os = "linux")]
+fn unacked(s: &TcpStream) -> Option<usize> {
+    use std::os::fd::AsRawFd;
+    use std::os::raw::{c_int, c_ulong};
+    extern "C" {
+        fn ioctl(fd: c_int, request: c_ulong, ...) -> c_int;
+    }
+    const SIOCOUTQ: c_ulong = 0x5411;
+    let mut n: c_int = 0;
+    // SAFETY: SIOCOUTQ writes one int through the pointer; the descriptor is open for the duration of the call
+    let r = unsafe { ioctl(s.as_raw_fd(), SIOCOUTQ, &mut n as *mut c_int) };
+    if r == 0 && n >= 0 { Some(n as usize) } else { None }
+}
+
+#[cfg(not(target_os = "linux"))]
+fn unacked(_: &TcpStream) -> Option<usize> {
+    None
+}
+
+/// Before the signal is sent: every pipelined client placed so far has all its bytes acknowledged by the
+/// server's kernel (they are in the connection's receive queue or already read), and `GRACE` has passed since.
+fn settle(clients: &mut Vec<Client>) {
+    let mut last: Option<Instant> = None;
+    for c in clients.iter_mut().filter(|c| pipe_of(c.kind).is_some()) {
+        if c.acked_at.is_none() && c.written_at.is_some() {
+            if let Some(s) = c.stream.as_ref() {
+                let t0 = Instant::now();
+                loop {
+                    match unacked(s) {
+                        Some(0) => {
+                            c.acked_at = Some(Instant::now());
+                            break;
+                        }
+                        // cannot be asked: the write has returned, loop-back delivery is immediate
+                        None => {
+                            c.acked_at = c.written_at;
+                            break;
+                        }
+                        Some(_) if t0.elapsed() > Duration::from_millis(500) => break,
+                        Some(_) => std::thread::sleep(Duration::from_micros(200)),
+                    }
+                }
+            }
+        }
+        last = last.max(c.acked_at);
+    }
+    if let Some(w) = last {
+        let due = w + GRACE + Duration::from_millis(1);
+        let now = Instant::now();
+        if due > now {
+            std::thread::sleep(due - now);
+        }
+    }
+}
+
+/// What a pipelined client writes (all of it at once) and the bodies it is owed.
+fn pipeline_for(first: usize, n: usize, seed: u64, id: usize) -> (Vec<u8>, Vec<Vec<u8>>, u64) {
+    let mut rng = crate::common::Rng::new(seed ^ 0x9199E ^ ((id as u64) << 20));
+    let mut bytes = Vec::new();
+    let mut expect = Vec::new();
+    let name = PIPE_FIRST[first % 3];
+    bytes.extend_from_slice(format!("GET /{} HTTP/1.1\r\nHost: x\r\nConnection: Keep-Alive\r\n\r\n", name).as_bytes());
+    expect.push(name.as_bytes().to_vec());
+    let mut nominal = [SHORT_MS, LONG_MS, 0][first % 3];
+    let padded = if rng.chance(1, 2) { 1 + rng.below(n as u64 - 1) as usize } else { 0 };
+    let pad = *rng.pick(&[100usize, 1000, 4096, 8192, 9000]);
+    let last_keep_alive = rng.chance(1, 2);
+    // (a long pipeline gets few slow followers: the deadline is for the connection, not per request)
+    let slow_one_in = if n > 8 { 16 } else { 4 };
+    for i in 1..n {
+        let uri = if rng.chance(1, slow_one_in) {
+            nominal += SHORT_MS;
+            format!("/ns/{}", i)
+        } else {
+            format!("/n/{}", i)
+        };
+        let mut r = format!("GET {} HTTP/1.1\r\nHost: x\r\n", uri);
+        if i == padded {
+            r += "X-Pad: ";
+            r.extend(std::iter::repeat('p').take(pad));
+            r += "\r\n";
+        }
+        if i + 1 < n || last_keep_alive {
+            r += "Connection: Keep-Alive\r\n";
+        }
+        r += "\r\n";
+        bytes.extend_from_slice(r.as_bytes());
+        expect.push(uri.into_bytes());
+    }
+    (bytes, expect, nominal)
+}
+
+impl Client {
+    fn new(kind: char) -> Client {
+        Client { kind, stream: None, got: Vec::new(), placed_before_signal: false, denied_by_plan: false, ord: None, expect: Vec::new(), written_at: None, acked_at: None, nominal_ms: 0 }
+    }
+
+    /// How many responses the client is owed.
+    fn owed(&self) -> usize {
+        self.expect.len().max(1)
+    }
+
+    /// What an in-flight client got: `C` every response it is owed, complete (and, on a pipelined connection,
+    /// in the order of the requests and nothing after them); `P` bytes that are not that: a truncated response, a
+    /// body that belongs to another request, bytes after the last response; `M` (pipelined only) at least one but
+    /// not all responses, each complete, then the connection was closed; `Z` closed without a byte; `T` open, and
+    /// not everything there at the deadline.
+    fn code(&self) -> char {
+        if self.expect.is_empty() {
+            return if complete_response(&self.got).is_some() {
+                'C'
+            } else if !self.got.is_empty() {
+                'P'
+            } else if self.stream.is_none() {
+                'Z'
+            } else {
+                'T'
+            };
+        }
+        let rs = responses(&self.got);
+        let n = self.expect.len();
+        let right = rs.iter().zip(self.expect.iter()).all(|((b, _), e)| *b == &e[..]);
+        // what follows the last owed response (or the last complete one, when some are missing)
+        let rest = &self.got[rs.iter().take(n).last().map_or(0, |(_, end)| *end)..];
+        // a connection that stays idle after a keep-alive pipeline gets the connection timeout's 408: not an answer
+        // to any of the requests, and nothing else may follow them
+        let idle_408: &[u8] = b"HTTP/1.1 408";
+        let m = rest.len().min(idle_408.len());
+        let rest_ok = rest.is_empty() || (rs.len() >= n && rest[..m] == idle_408[..m]);
+        if !right || !rest_ok {
+            'P'
+        } else if rs.len() >= n {
+            'C'
+        } else if self.stream.is_some() {
+            'T'
+        } else if rs.is_empty() {
+            'Z'
+        } else {
+            'M'
+        }
+    }
 }
 
 fn request_for(kind: char) -> &'static [u8] {
@@ -174,7 +363,27 @@ fn request_for(kind: char) -> &'static [u8] {
 }
 
 pub fn in_flight(kind: char) -> bool {
-    matches!(kind, 'S' | 'L' | 'W')
+    matches!(kind, 'S' | 'L' | 'W') || pipe_of(kind).is_some()
+}
+
+/// The complete responses at the start of `b`: their bodies, and where each ends. (Humphrey ends every
+/// serialised response with a CRLF after the `Content-Length` bytes of the body: that CRLF, or the part of it
+/// that has arrived, belongs to the response in front of it.)
+pub fn responses(b: &[u8]) -> Vec<(&[u8], usize)> {
+    let mut at = 0;
+    let mut v = Vec::new();
+    while let Some(n) = complete_response(&b[at..]) {
+        let head = b[at..at + n].windows(4).position(|w| w == b"\r\n\r\n").unwrap_or(0) + 4;
+        let body = &b[at + head..at + n];
+        at += n;
+        if b[at..].starts_with(b"\r\n") {
+            at += 2;
+        } else if &b[at..] == b"\r" {
+            at += 1;
+        }
+        v.push((body, at));
+    }
+    v
 }
 
 /// `Some(n)`: the bytes form a complete response (status line, headers, `Content-Length` bytes of body) of `n`
@@ -197,15 +406,15 @@ pub fn complete_response(b: &[u8]) -> Option<usize> {
     if b.len() >= p + 4 + cl { Some(p + 4 + cl) } else { None }
 }
 
-/// Read until a complete response, EOF / reset, or the deadline.
-fn read_response(c: &mut Client, deadline: Instant) {
+/// Read until `want` complete responses are there, EOF / reset, or the deadline.
+fn read_response(c: &mut Client, want: usize, deadline: Instant) {
     let s = match c.stream.as_mut() {
         Some(s) => s,
         None => return,
     };
     let mut buf = vec![0u8; 1 << 16];
     loop {
-        if complete_response(&c.got).is_some() {
+        if (want <= 1 && complete_response(&c.got).is_some()) || (want > 1 && responses(&c.got).len() >= want) {
             return;
         }
         let now = Instant::now();
@@ -238,9 +447,9 @@ fn wait_handled(n: usize, max: Duration) {
 /// Connect client `id` and bring it into its state. `wait`: the signal has not been sent yet and nothing runs
 /// concurrently, so wait until the accept loop has dealt with the connection (and, for `K` / `O`, until the
 /// first response has arrived).
-fn place(id: usize, kind: char, target: &str, wait: bool, ok_so_far: &mut usize, ports: &mut Vec<String>, refused: &mut Vec<String>) -> Client {
+fn place(id: usize, kind: char, seed: u64, target: &str, wait: bool, ok_so_far: &mut usize, ports: &mut Vec<String>, refused: &mut Vec<String>) -> Client {
     record(format!("+a{}", id));
-    let mut c = Client { kind, stream: None, got: Vec::new(), placed_before_signal: false, denied_by_plan: false, ord: None };
+    let mut c = Client::new(kind);
     let addr: SocketAddr = target.parse().expect("target addr");
     match TcpStream::connect_timeout(&addr, Duration::from_millis(400)) {
         Err(_) => {
@@ -252,8 +461,27 @@ fn place(id: usize, kind: char, target: &str, wait: bool, ok_so_far: &mut usize,
             let ord = *ok_so_far;
             *ok_so_far += 1;
             c.ord = Some(ord);
-            let _ = s.write_all(request_for(kind));
+            let written = match pipe_of(kind) {
+                Some((first, n)) => {
+                    // the whole pipeline in one write: every request is on its way before anything is read
+                    let (bytes, expect, nominal) = pipeline_for(first, n, seed, id);
+                    c.expect = expect;
+                    c.nominal_ms = nominal;
+                    s.write_all(&bytes).is_ok()
+                }
+                None => {
+                    c.nominal_ms = match kind {
+                        'S' => SHORT_MS,
+                        'L' => LONG_MS,
+                        _ => 0,
+                    };
+                    s.write_all(request_for(kind)).is_ok()
+                }
+            };
             let _ = s.flush();
+            if written {
+                c.written_at = Some(Instant::now());
+            }
             c.stream = Some(s);
             if wait {
                 wait_handled(ord + 1, Duration::from_millis(1500));
@@ -261,7 +489,7 @@ fn place(id: usize, kind: char, target: &str, wait: bool, ok_so_far: &mut usize,
                 c.placed_before_signal = HANDLED.load(Ordering::SeqCst) >= ord + 1;
                 if matches!(kind, 'K') && !c.denied_by_plan {
                     // the pool may be saturated: then the answer does not come; that is a legal state too
-                    read_response(&mut c, Instant::now() + Duration::from_millis(250));
+                    read_response(&mut c, 1, Instant::now() + Duration::from_millis(250));
                 }
                 if matches!(kind, 'O') && !c.denied_by_plan {
                     let dl = Instant::now() + Duration::from_millis(250);
@@ -312,9 +540,9 @@ fn place_bulk(scn: &Scn, from: usize, target: &str, clients: &mut Vec<Client>, o
         if stalled {
             // never attempted: no `+a` token, listed with the refused ones
             refused.push(i.to_string());
-            clients.push(Client { kind: scn.kinds[i], stream: None, got: Vec::new(), placed_before_signal: false, denied_by_plan: false, ord: None });
+            clients.push(Client::new(scn.kinds[i]));
         } else {
-            clients.push(place(i, scn.kinds[i], target, false, ok_so_far, ports, refused));
+            clients.push(place(i, scn.kinds[i], scn.seed, target, false, ok_so_far, ports, refused));
         }
     }
     if !stalled {
@@ -335,6 +563,7 @@ pub fn reset_globals(scn: &Scn) {
     WORKER_EXITS.store(0, Ordering::SeqCst);
     ACCEPT_ORD.store(0, Ordering::SeqCst);
     DENY.store(scn.deny, Ordering::SeqCst);
+    GATE_OPEN.store(false, Ordering::SeqCst);
     *DONE_AT.lock().unwrap_or_else(|e| e.into_inner()) = None;
 }
 
@@ -388,17 +617,18 @@ fn run_once(scn: &Scn, launch: Launch) -> Option<ScnResult> {
         'B' => {
             t_signal = fire(&mut trigger);
             for (i, k) in scn.kinds.iter().enumerate() {
-                clients.push(place(i, *k, &target, false, &mut ok_so_far, &mut ports, &mut refused));
+                clients.push(place(i, *k, scn.seed, &target, false, &mut ok_so_far, &mut ports, &mut refused));
             }
         }
         'M' => {
             let k = scn.k.min(n);
             for i in 0..k {
-                clients.push(place(i, scn.kinds[i], &target, true, &mut ok_so_far, &mut ports, &mut refused));
+                clients.push(place(i, scn.kinds[i], scn.seed, &target, true, &mut ok_so_far, &mut ports, &mut refused));
             }
+            settle(&mut clients);
             t_signal = fire(&mut trigger);
             for i in k..n {
-                clients.push(place(i, scn.kinds[i], &target, false, &mut ok_so_far, &mut ports, &mut refused));
+                clients.push(place(i, scn.kinds[i], scn.seed, &target, false, &mut ok_so_far, &mut ports, &mut refused));
             }
         }
         'C' => {
@@ -413,7 +643,7 @@ fn run_once(scn: &Scn, launch: Launch) -> Option<ScnResult> {
                 let _ = ttx.send(t);
             });
             for (i, k) in scn.kinds.iter().enumerate() {
-                clients.push(place(i, *k, &target, false, &mut ok_so_far, &mut ports, &mut refused));
+                clients.push(place(i, *k, scn.seed, &target, false, &mut ok_so_far, &mut ports, &mut refused));
             }
             t_signal = trx.recv_timeout(Duration::from_secs(5)).unwrap_or_else(|_| Instant::now());
             let _ = h.join();
@@ -421,17 +651,19 @@ fn run_once(scn: &Scn, launch: Launch) -> Option<ScnResult> {
         'Q' => {
             let k = scn.k.min(n);
             for i in 0..k {
-                clients.push(place(i, scn.kinds[i], &target, true, &mut ok_so_far, &mut ports, &mut refused));
+                clients.push(place(i, scn.kinds[i], scn.seed, &target, true, &mut ok_so_far, &mut ports, &mut refused));
             }
             place_bulk(scn, k, &target, &mut clients, &mut ok_so_far, &mut ports, &mut refused);
+            settle(&mut clients);
             t_signal = fire(&mut trigger);
         }
         _ => {
             for (i, k) in scn.kinds.iter().enumerate() {
-                clients.push(place(i, *k, &target, true, &mut ok_so_far, &mut ports, &mut refused));
+                clients.push(place(i, *k, scn.seed, &target, true, &mut ok_so_far, &mut ports, &mut refused));
             }
             // let the handlers of the last connections get going (a saturated pool never does)
             std::thread::sleep(Duration::from_millis(rng.below(20)));
+            settle(&mut clients);
             t_signal = fire(&mut trigger);
         }
     }
@@ -449,6 +681,9 @@ fn run_once(scn: &Scn, launch: Launch) -> Option<ScnResult> {
         .iter()
         .enumerate()
         .filter(|(_, c)| in_flight(c.kind) && c.placed_before_signal && !c.denied_by_plan && c.stream.is_some())
+        // a pipelined connection: every request of it had been written and acknowledged, and `GRACE` had passed,
+        // when the signal was sent
+        .filter(|(_, c)| pipe_of(c.kind).is_none() || c.acked_at.map_or(false, |w| w + GRACE <= t_signal))
         .map(|(i, _)| i.to_string())
         .collect();
     if !returned {
@@ -463,8 +698,11 @@ fn run_once(scn: &Scn, launch: Launch) -> Option<ScnResult> {
         }
         Err(_) => "fail",
     };
+    // `run` is back: the gated handlers may finish now
+    GATE_OPEN.store(true, Ordering::SeqCst);
     // --- measurement 3: what do the in-flight clients get? First let go of the connections that only hold a
-    // worker (a saturated pool starts the queued tasks only then).
+    // worker (a saturated pool starts the queued tasks only then). The connections are read AFTER `run` has
+    // returned, every one until it has all the responses it is owed, the peer closes, or the deadline.
     for c in clients.iter_mut() {
         if !in_flight(c.kind) {
             c.stream = None;
@@ -472,10 +710,17 @@ fn run_once(scn: &Scn, launch: Launch) -> Option<ScnResult> {
     }
     // (large states: every queued connection is a task the workers have to get through first)
     let per_conn = Duration::from_millis(2 * n as u64);
-    let deadline = Instant::now() + Duration::from_millis(4000) + per_conn;
+    // (and a pool of one thread runs the handlers one after the other)
+    let handlers = Duration::from_millis(clients.iter().map(|c| c.nominal_ms).sum());
+    let deadline = Instant::now() + Duration::from_millis(4000) + per_conn + handlers;
     for c in clients.iter_mut() {
         if in_flight(c.kind) {
-            read_response(c, deadline);
+            let want = c.owed();
+            read_response(c, want, deadline);
+            // everything owed is there: let go of the connection (a keep-alive one holds a worker until then)
+            if !c.expect.is_empty() && responses(&c.got).len() >= want {
+                c.stream = None;
+            }
         }
     }
     let mut codes = String::new();
@@ -484,14 +729,8 @@ fn run_once(scn: &Scn, launch: Launch) -> Option<ScnResult> {
             'R'
         } else if !in_flight(c.kind) {
             'h'
-        } else if complete_response(&c.got).is_some() {
-            'C'
-        } else if !c.got.is_empty() {
-            'P'
-        } else if c.stream.is_none() {
-            'Z'
         } else {
-            'T'
+            c.code()
         };
         codes.push(code);
     }
